@@ -85,6 +85,10 @@ def invoke(fn, names_, args, environment, pos):
                 for value in argvalue.getSortedItems():
                     values.append(value)
                     names.append(None)
+            elif argvalue.isString():
+                for ch in argvalue.value:
+                    values.append(ValueString(ch))
+                    names.append(None)
             else:
                 for value in argvalue.value:
                     values.append(value)
@@ -1224,6 +1228,8 @@ class NodeList:
                     values = lst.getSortedItems()
                 elif lst.isMap():
                     values = lst.getSortedKeys()
+                elif lst.isString():
+                    values = [ValueString(ch) for ch in lst.value]
                 else:
                     values = lst.value
                 for value in values:
